@@ -251,6 +251,10 @@ func (tnc *TNC) runControlLoop() error {
 				if tnc.ptt != nil {
 					tnc.ptt.SetPTT(msg.Bool())
 				}
+			case cmdConnected:
+				// The first data frames may follow directly behind this report. Accept them
+				// from now on instead of waiting for Dial/Accept to notice the connection.
+				tnc.connected = true
 			case cmdDisconnected:
 				tnc.state = Disconnected
 				tnc.eof()
@@ -328,6 +332,10 @@ func (tnc *TNC) eof() {
 		tnc.connected = false   // connect() is responsible for setting it to true
 		tnc.dataIn = make(chan []byte, 4096)
 		tnc.data = nil
+	} else if tnc.connected {
+		// The connection ended before Dial/Accept picked it up. Drop what was queued for it.
+		tnc.connected = false
+		tnc.dataIn = make(chan []byte, 4096)
 	}
 }
 
